@@ -254,3 +254,54 @@ def kalman_bounded(vc):
         kx, kP = np.array(f.est_x, dtype=float), np.array(f.est_p, dtype=float)  # follow the filter: compare step by step, not accumulated drift
     for k_, v in ok.items():
         vc.ensure(f"B-C06-seq.{k_}", bool(v))
+
+
+NZ = "resonaate.physics.noise:"
+
+
+@obligation("C06", "noise_models", ensures=["O-C06-noise.discrete", "O-C06-noise.continuous", "O-C06-noise.simple", "O-C06-noise.psd", "O-C06-noise.factory"],
+            fns=[NZ + "discreteWhiteNoise", NZ + "continuousWhiteNoise", NZ + "simpleNoise", NZ + "noiseCovarianceFactory"], mode="R",
+            note="the process-noise matrices handed to the filter are the documented ones for EVERY time step: discrete white noise = sigma^2 * G G^T with G = (dt^2/2 I; dt I) (so the position-velocity block is dt^3/2: "
+                 "on the boundary of positive semi-definiteness), discretised continuous white noise = q * [[dt^3/3, dt^2/2], [dt^2/2, dt]] per axis, simple noise = dt * diag(0,0,0,std^2,std^2,std^2); all symmetric and "
+                 "positive semi-definite (v^T Q v >= 0 for every v, shown as an explicit sum of squares); the factory builds the model named by its label with the given step and magnitude")
+def noise_models(vc):
+    from resonaate.common.labels import NoiseLabel
+    dt = vc.real("dt", 1e-3, 3600)
+    sig = vc.real("sigma", 1e-9, 10)
+    dtn = object if vc.symbolic else float
+    tol = 1e-9
+    Qd = vc.fn(NZ + "discreteWhiteNoise")(dt, sig)
+    Qc = vc.fn(NZ + "continuousWhiteNoise")(dt, sig)
+    Qs = vc.fn(NZ + "simpleNoise")(dt, sig)
+    G = np.zeros((6, 3), dtype=dtn)
+    for i in range(3):
+        G[i, i] = dt * dt / 2
+        G[i + 3, i] = dt
+    vc.ensure("O-C06-noise.discrete", vc.eq(Qd, np.dot(G, G.T) * (sig * sig), tol))
+    wantc = np.zeros((6, 6), dtype=dtn)
+    for i in range(3):
+        wantc[i, i], wantc[i, i + 3], wantc[i + 3, i], wantc[i + 3, i + 3] = (1 / 3) * dt * dt * dt, dt * dt / 2, dt * dt / 2, dt
+    vc.ensure("O-C06-noise.continuous", vc.eq(Qc, wantc * sig, tol))
+    wants = np.zeros((6, 6), dtype=dtn)
+    for i in range(3, 6):
+        wants[i, i] = dt * sig * sig
+    vc.ensure("O-C06-noise.simple", vc.eq(Qs, wants, tol))
+    v = vc.vec("v", 6, -10, 10)
+    forms = []
+    for Q in (Qd, Qc, Qs):
+        forms.append(np.dot(v, np.dot(Q, v)))
+    # explicit decompositions: discrete = sigma^2 sum_i (dt^2/2 v_i + dt v_{i+3})^2 ; continuous = q sum_i [ dt (v_{i+3} + dt/2 v_i)^2 + dt^3/12 v_i^2 ]
+    sos_d = sum(((dt * dt / 2 * v[i] + dt * v[i + 3]) * (dt * dt / 2 * v[i] + dt * v[i + 3]) for i in range(1, 3)), (dt * dt / 2 * v[0] + dt * v[3]) * (dt * dt / 2 * v[0] + dt * v[3])) * (sig * sig)
+    third = 1 / 3  # (the double the body uses; the decomposition below needs third >= 1/4 only)
+    term = lambda i: dt * (v[i + 3] + dt / 2 * v[i]) * (v[i + 3] + dt / 2 * v[i]) + (third - 0.25) * dt * dt * dt * v[i] * v[i]
+    sos_c = (term(0) + term(1) + term(2)) * sig
+    if vc.symbolic:
+        vc.cut("O-C06-noise.psd", vc.eq(forms[0], sos_d))
+        vc.cut("O-C06-noise.psd", vc.eq(forms[1], sos_c))
+    sym_ok = vc.And(vc.eq(Qd, Qd.T, tol), vc.eq(Qc, Qc.T, tol), vc.eq(Qs, Qs.T, tol))
+    vc.ensure("O-C06-noise.psd", vc.And(sym_ok, vc.le(0, forms[0], 1e-9), vc.le(0, forms[1], 1e-9), vc.le(0, forms[2], 1e-9)))
+    fac = vc.fn(NZ + "noiseCovarianceFactory")
+    step = vc.int("step", 1, 600)
+    vc.ensure("O-C06-noise.factory", vc.And(vc.eq(fac(NoiseLabel.DISCRETE_WHITE_NOISE, step, sig), vc.fn(NZ + "discreteWhiteNoise")(step, sig), tol),
+                                             vc.eq(fac(NoiseLabel.CONTINUOUS_WHITE_NOISE, step, sig), vc.fn(NZ + "continuousWhiteNoise")(step, sig), tol),
+                                             vc.eq(fac(NoiseLabel.SIMPLE_NOISE, step, sig), vc.fn(NZ + "simpleNoise")(step, sig), tol)))
